@@ -639,4 +639,61 @@ def lexValues (D : Defects) : List Value → List Value → Option Ordering
     | o => o
   | _, _ => none
 
+/-! ## What SQL does with one column of values (runtime/ops/sort.rs, distinct.rs, aggregate.rs, eval.rs) -/
+
+/-- stable insertion sort by a three-way comparator -/
+def insertBy {α : Type} (cmp : α → α → Ordering) (x : α) : List α → List α
+  | [] => [x]
+  | y :: ys => if cmp x y == .lt then x :: y :: ys else y :: insertBy cmp x ys
+
+def sortByCmp {α : Type} (cmp : α → α → Ordering) (xs : List α) : List α :=
+  xs.foldl (fun acc x => insertBy cmp x acc) []
+
+/-- `ORDER BY v ASC`: the binder sets `nulls_first = false`, so NULLs come last -/
+def orderAsc (D : Defects) (a b : Value) : Ordering :=
+  match a, b with
+  | .null, .null => .eq
+  | .null, _ => .gt
+  | _, .null => .lt
+  | a, b => (partialCmp D a b).getD .eq
+
+/-- `ORDER BY v DESC` reverses the whole verdict, NULL placement included -/
+def orderDesc (D : Defects) (a b : Value) : Ordering := (orderAsc D a b).swap
+
+/-- `SELECT DISTINCT` / `GROUP BY`: one representative per equality class, with its multiplicity
+    (the hash containers group by `Eq` + `Hash`; rows whose hashes differ are never merged) -/
+def groupCount (D : Defects) (vs : List Value) : List (Value × Nat) :=
+  vs.foldl (fun acc v =>
+    if acc.any (fun (w, _) => eq D w v && hashKey D w == hashKey D v) then
+      acc.map (fun (w, n) => if eq D w v && hashKey D w == hashKey D v then (w, n + 1) else (w, n))
+    else acc ++ [(v, 1)]) []
+
+/-! ## Constants and tables of the code that the model relies on (checked against `Generated/Value.lean`) -/
+
+structure Params where
+  /-- `MAX_VARINT_LEN` -/
+  maxVarintLen : Nat
+  /-- per `DataTypeKind`: name, `repr(u8)` discriminant, `SIZE`, `ALIGN`, `is_numeric` -/
+  kinds : List (String × Nat × Option Nat × Nat × Bool)
+  /-- `Tuple::keys_offset(1)`: tuple header plus one null-bitmap byte -/
+  keysOffset1 : Nat
+  /-- the cast matrix: pairs (from, to) of discriminants for which `try_cast` of a sample value succeeds -/
+  castOk : List (Nat × Nat)
+  deriving Repr, DecidableEq
+
+/-- the sample value of each kind that the cast matrix is evaluated on (1 / true / "a") -/
+def Kind.sample : Kind → Value
+  | .null => .null | .bool => .bool true | .int => .int 1 | .bigint => .bigint 1 | .uint => .uint 1
+  | .biguint => .biguint 1 | .float => .float 1065353216 | .double => .double 4607182418800017408 | .blob => .blob [97]
+
+/-- what the model assumes -/
+def stdParams : Params :=
+  { maxVarintLen := VarInt.maxLen
+    kinds := Kind.all.map fun k => (k.name, k.tag, k.size, k.align, k.isNumeric)
+    keysOffset1 := 25
+    castOk := (Kind.all.flatMap fun a => Kind.all.map fun b => (a, b)).filterMap fun (a, b) =>
+      match tryCast {} a.sample b with
+      | .ok _ => some (a.tag, b.tag)
+      | .error _ => none }
+
 end AxVerif.Value
